@@ -160,7 +160,7 @@ theorem route_tail_ok {x1 : Ctx} (h2 : Inv x1.st) {o : Nat} (ho : o ∈ conns x1
     Ok x1 (emit { (send (emit x1 (.timerArm t tns)) o msg).1 with
       st := { (send (emit x1 (.timerArm t tns)) o msg).1.st with
         peers := removeRoute (send (emit x1 (.timerArm t tns)) o msg).1.st.peers o rid } } (.timerDestroy t)) := by
-  have e1 : Ok x1 (emit x1 (.timerArm t tns)) := Ok.emit h2 _ (by intro c j b hh; cases hh)
+  have e1 : Ok x1 (emit x1 (.timerArm t tns)) := Ok.emit h2 _ trivial
   have e2 : Ok (emit x1 (.timerArm t tns)) (send (emit x1 (.timerArm t tns)) o msg).1 :=
     Ok.send (x := emit x1 (.timerArm t tns)) h2 ho msg
   refine ⟨e1.trans e2, (e1.trans e2).trans ?_⟩
@@ -170,7 +170,7 @@ theorem route_tail_ok {x1 : Ctx} (h2 : Inv x1.st) {o : Nat} (ho : o ∈ conns x1
   refine Ok.trans (y := { (send (emit x1 (.timerArm t tns)) o msg).1 with
       st := { (send (emit x1 (.timerArm t tns)) o msg).1.st with
         peers := removeRoute (send (emit x1 (.timerArm t tns)) o msg).1.st.peers o rid } })
-    (Ok.of_out_eq h3 (conns_removeRoute _ _ _) rfl) (Ok.emit h3 _ (by intro c j b hh; cases hh))
+    (Ok.of_out_eq h3 (conns_removeRoute _ _ _) rfl) (Ok.emit h3 _ trivial)
 
 theorem routeMain_ok (cfg : Config) {x : Ctx} (h : Inv x.st) {p : Peer} (hp : p ∈ x.st.peers) (req params : Json)
     (path : Bytes) (isState : Bool) {e : Element} (he : e.owner ∈ conns x.st.peers) (originId value : Option Json) :
@@ -186,8 +186,8 @@ theorem routeMain_ok (cfg : Config) {x : Ctx} (h : Inv x.st) {p : Peer} (hp : p 
       have h1 : Inv { x.st with uuid := (x.st.uuid + 1) % 4294967296, nextTimer := x.st.nextTimer + 1 } :=
         h.frame rfl rfl (Nat.le_succ _)
       split
-      · refine ⟨h1, rfl, [Obs.timerDestroy x.st.nextTimer], rfl, ?_⟩
-        intro c j b hm; simp at hm
+      · exact Ok.trans (y := { x with st := _ }) (Ok.of_out_eq h1 rfl rfl)
+          (Ok.trans (Ok.emit h1 (.timerDestroy x.st.nextTimer) trivial) (Ok.of_out_eq h1 rfl rfl))
       · have h2 := h1.addRoute e.owner
           { rid := routedId originId x.st.uuid p.addrTok, requester := p.conn, owner := e.owner,
             originId := originId, timer := x.st.nextTimer } rfl (mem_conns.2 ⟨p, hp, rfl⟩) (Nat.lt_succ_self _)
@@ -235,7 +235,7 @@ theorem routingResponse_ok {x : Ctx} (h : Inv x.st) {p : Peer} (hp : p ∈ x.st.
       have h1 : Inv { x.st with peers := removeRoute x.st.peers p.conn rid } := h.removeRoute _ _
       have o1 : Ok x (emit { x with st := { x.st with peers := removeRoute x.st.peers p.conn rid } } (.timerDestroy r.timer)) :=
         Ok.trans (y := { x with st := _ }) (Ok.of_out_eq h1 (conns_removeRoute _ _ _) rfl)
-          (Ok.emit h1 _ (by intro c j b hh; cases hh))
+          (Ok.emit h1 _ trivial)
       dsimp only
       split
       · exact o1
@@ -257,12 +257,12 @@ theorem timeoutFired_ok {x : Ctx} (h : Inv x.st) (t : Nat) : Ok x (timeoutFired 
       Ok.of_out_eq h1 (conns_removeRoute _ _ _) rfl
     dsimp only
     split
-    · exact o1.trans (Ok.emit h1 _ (by intro c j b hh; cases hh))
+    · exact o1.trans (Ok.emit h1 _ trivial)
     · split
       · next resp _ =>
         have o2 := o1.trans (Ok.send' o1.inv (by rw [o1.2.1]; exact hreq) resp)
-        exact o2.trans (Ok.emit o2.inv _ (by intro c j b hh; cases hh))
-      · exact o1.trans (Ok.emit h1 _ (by intro c j b hh; cases hh))
+        exact o2.trans (Ok.emit o2.inv _ trivial)
+      · exact o1.trans (Ok.emit h1 _ trivial)
 
 theorem foldl_ok' {α : Type} (Q : Ctx → Prop) (f : Ctx → α → Ctx) (l : List α) (x : Ctx) (h : Inv x.st) (hq : Q x)
     (hf : ∀ y a, a ∈ l → Inv y.st → Q y → Ok y (f y a) ∧ Q (f y a)) : Ok x (l.foldl f x) ∧ Q (l.foldl f x) := by
